@@ -6,15 +6,15 @@ ROOT = os.path.dirname(os.path.dirname(os.path.abspath(__file__)))
 # id -> (technique, level text, level note, design ref)
 CHECKS = {
  "C01": ("exhaustive enumeration vs. independently walked calendar (model-based differential)",
-         "Complete enumeration of the stated finite domain (all 3,652,059 day numbers, their out-of-range neighbours, the whole (y,m,d) grid) against a calendar built by day-by-day stepping; this decides the property for every input it quantifies over, short of a bug shared by the 60-line reference walk. The same triples are also written as text and read through the parse entry points of Date, Timestamp and OracleDate (separate validators), with the same acceptance and error-kind rule.",
+         "Complete enumeration of the stated finite domain (all 3,652,059 day numbers, their out-of-range neighbours, the whole (y,m,d) grid) against a calendar built by day-by-day stepping; this decides the property for every input it quantifies over, short of a bug shared by the 60-line reference walk. The same triples are also written as text and read through the parse entry points of Date, Timestamp and OracleDate (separate validators), with the same acceptance and error-kind rule (seven pictures, two of them with a two-letter year token given four digits, where only an accepted value is judged). Ordering includes the provided Ord methods (max, min, clamp) and sorting.",
          "Trusted: the reference walk (month lengths + leap rule + Thursday anchor as written in the statement), the Rust toolchain. Both tiers are exhaustive.",
          "4/C01"),
  "C07": ("exhaustive enumeration + boundary-pool pairs vs. i128 div/rem model (model-based differential)",
-         "Every date x critical times of day, every second of the day, every microsecond at three seconds, the full (h,m,s,us) validity grid and neighbour/random ordering pairs are compared with integer arithmetic n*86400e6+t; complete for the date and second axes, sampled (boundary pool + seeded) for arbitrary instants. Every swept instant is also compared (all operators, both argument orders) with the Date of the previous, same and next day.",
+         "Every date x critical times of day, every second of the day, every microsecond at three seconds, the full (h,m,s,us) validity grid and neighbour/random ordering pairs are compared with integer arithmetic n*86400e6+t; complete for the date and second axes, sampled (boundary pool + seeded) for arbitrary instants. Every swept instant is also compared (all operators, both argument orders) with the Date of the previous, same and next day; ordering pairs include the provided Ord methods (max, min, clamp) and sorting.",
          "Trusted: walked calendar, i128 arithmetic, std DefaultHasher for hash consistency. Arbitrary (date, microsecond) pairs away from the critical times are sampled, not enumerated.",
          "4/C07"),
  "C08": ("pool cross-product sweeps + proptest with shrinking vs. exact i128 / dyadic-rational arithmetic",
-         "Each of the 37 linear operations is crossed with boundary+seeded operand pools and proptest-generated 64-bit operands and judged by the biconditional 'Ok(exact) <=> exact result in range'; add_days/sub_days are judged against the exact set of admissible microsecond offsets computed without floating point. Sampled over 64-bit operands; boundary regions are covered by construction.",
+         "Each of the 37 linear operations is crossed with boundary+seeded operand pools and proptest-generated 64-bit operands and judged by the biconditional 'Ok(exact) <=> exact result in range'; add_days/sub_days are judged against the exact set of admissible microsecond offsets computed without floating point; the difference of two Oracle-style dates (days) is checked over all pool pairs, also at equal times of day. Sampled over 64-bit operands; boundary regions are covered by construction.",
          "Trusted: i128 arithmetic and the dyadic decomposition of doubles (unit-tested). Error kinds are not constrained by the statement and are not checked.",
          "4/C08"),
  "C04": ("exhaustive single-token sweeps + proptest composite pictures vs. independent reference renderer (differential)",
@@ -38,7 +38,7 @@ CHECKS = {
          "Trusted: i128 arithmetic. Arbitrary (time, interval) pairs are sampled.",
          "4/C12"),
  "C13": ("enumeration (all year-month values in thorough) + pools + validity grids vs. sign/div/rem model",
-         "Thorough enumerates all 4,272,000,001 year-month intervals; quick strides by 997 plus windows at zero and both limits. Day-time intervals: every second within +-2 days, powers of ten, unit multiples +-1us, limits and up to 8e6 seeded values; constructor grids with u32 extremes; all against sign + div/rem decomposition, exact negation and numeric order.",
+         "Thorough enumerates all 4,272,000,001 year-month intervals; quick strides by 997 plus windows at zero and both limits. Day-time intervals: every second within +-2 days, powers of ten, unit multiples +-1us, limits and up to 8e6 seeded values; constructor grids with u32 extremes; all against sign + div/rem decomposition, exact negation and numeric order (every operator, cmp / partial_cmp and the provided methods max / min / clamp and sorting over all pairs of a pool).",
          "Trusted: i128 arithmetic. Day-time intervals are sampled outside the +-2 day window.",
          "4/C13"),
  "C14": ("pool x classed-scalar sweeps + proptest vs. exact dyadic-rational arithmetic (no floating point in the oracle)",
@@ -46,7 +46,7 @@ CHECKS = {
          "Trusted: the dyadic decomposition (unit-tested); the admissible set is a superset of the statement's tolerance by at most a relative 2^-60, so ties cannot alarm.",
          "4/C14"),
  "C19": ("exhaustive short strings + proptest token sequences vs. reference longest-match tokenizer, observed through a probe rendering; both build profiles",
-         "Every string up to length 4 (quick) / 5 (thorough) over a 39-symbol alphabet, blank runs of every length up to 700, the 36-token limit, near-miss spellings and proptest token sequences of up to 40 tokens are compiled; acceptance must equal the reference tokenizer's and the probe rendering must equal the reference rendering of the reference token list (token identity, name case, blank-run length). Run under release and under overflow-checked builds. Every letter-case pattern of every name / meridian token is formatted for probes covering every month name, weekday name and both meridians.",
+         "Every string up to length 4 (quick) / 5 (thorough) over a 39-symbol alphabet, blank runs of every length up to 700 and at 2^k boundaries up to 2^25 (2^27 in thorough), the 36-token limit, near-miss spellings and proptest token sequences of up to 40 tokens are compiled; acceptance must equal the reference tokenizer's and the probe rendering must equal the reference rendering of the reference token list (token identity, name case, blank-run length). Run under release and under overflow-checked builds. Every letter-case pattern of every name / meridian token is formatted for probes covering every month name, weekday name and both meridians.",
          "Trusted: the reference tokenizer written from the token list in the statement. Language membership beyond length 5 is sampled by grammar-based generation.",
          "4/C19"),
  "C02": ("operation-table cross-product sweeps + proptest operands vs. range predicates and exact models (validity oracle)",
@@ -54,7 +54,7 @@ CHECKS = {
          "Trusted: range limits derived from the walked calendar and the statement; the operation table is hand-written from the public API (a new public function is not picked up automatically). Sampled over operand space; boundary regions by construction.",
          "4/C02"),
  "C03": ("exhaustive short strings + proptest grammar/mutation generation + operation table with extreme scalars, oracle = catch_unwind; both build profiles; libFuzzer target in thorough",
-         "All strings up to length 3 (quick) / 4 (thorough) as pictures and as inputs, grammar pictures with long blank runs x mutated formatted inputs, and every operation-table row with extreme scalars are executed under release and under overflow-checked/debug-assertion builds; any panic in a safe call is a violation. Thorough adds a coverage-guided libFuzzer campaign (overflow checks on) over (type, picture, input) bytes. Long texts / pictures with a multi-byte character across every byte offset and a re-entrant sink are included.",
+         "All strings up to length 3 (quick) / 4 (thorough) as pictures and as inputs, every string up to length 2 / 3 before and after 28..38 one-character tokens, grammar pictures with long blank runs x mutated formatted inputs, and every operation-table row with extreme scalars are executed under release and under overflow-checked/debug-assertion builds; any panic in a safe call is a violation. Thorough adds a coverage-guided libFuzzer campaign (overflow checks on) over (type, picture, input) bytes. Long texts / pictures with a multi-byte character across every byte offset and a re-entrant sink are included.",
          "Trusted: std::panic::catch_unwind observing every library call. Absence of panics is established only for what was generated; long structured inputs are sampled.",
          "4/C03"),
  "C05": ("exhaustive (year, day-of-year) / date / second sweeps + constructive speller with proptest shrinking; oracle = value known by construction, single-component perturbations must be rejected",
